@@ -1,6 +1,7 @@
 // detcheck: harness for C07 — every command's output depends only on its inputs.
-//   detcheck runs  : repeats every command N times in fresh processes and compares outputs byte for byte
-//   detcheck conc  : (built with -race) K concurrent library generations on distinct targets vs sequential results
+//
+//	detcheck runs  : repeats every command N times in fresh processes and compares outputs byte for byte
+//	detcheck conc  : (built with -race) K concurrent library generations on distinct targets vs sequential results
 package main
 
 import (
@@ -12,6 +13,7 @@ import (
 	"io"
 	"log"
 	"os"
+	"os/exec"
 	"path/filepath"
 	"sort"
 	"strings"
@@ -392,8 +394,8 @@ func cmdRuns(args []string) {
 	}
 	rep := map[string]interface{}{
 		"evaluations": len(commands) * *n, "distinct_nontrivial": len(commands),
-		"rule":       fmt.Sprintf("%d commands (generate server/client/cli/model/markdown/spec, diff txt/json, flatten, expand, mixin, with option variants) each run %d times in fresh processes on a fixed wide input (12+ definitions, 25+ operations, 3 tags, 3 security schemes, 10 media types incl. several matched by more than one table entry, extensions) — Go re-randomises map iteration per run; the outputs (tree hash / stdout / file) must be byte-identical. Each command is one distinct non-trivial case.", len(commands), *n),
-		"samples":    samples, "coverage": cov, "violations": viols,
+		"rule":    fmt.Sprintf("%d commands (generate server/client/cli/model/markdown/spec, diff txt/json, flatten, expand, mixin, with option variants) each run %d times in fresh processes on a fixed wide input (12+ definitions, 25+ operations, 3 tags, 3 security schemes, 10 media types incl. several matched by more than one table entry, extensions) — Go re-randomises map iteration per run; the outputs (tree hash / stdout / file) must be byte-identical. Each command is one distinct non-trivial case.", len(commands), *n),
+		"samples": samples, "coverage": cov, "violations": viols,
 	}
 	b, _ := json.MarshalIndent(rep, "", " ")
 	_ = os.WriteFile(*out, b, 0o644)
@@ -431,6 +433,77 @@ func newOpts(spec, target string, keepOrder bool) *generator.GenOpts {
 	return g
 }
 
+// houseDocstring: a custom template directory that overrides one definition of the embedded templates
+const houseDocstring = `{{ define "docstring" }}
+  {{- if .Description }}
+    {{- blockcomment (comment .Description) }} (house style)
+  {{- else }}
+    {{- humanize .Name }} (house style)
+  {{- end }}
+{{- end }}
+`
+
+func mixOpts(spec, target, tdir, variant string) *generator.GenOpts {
+	g := &generator.GenOpts{}
+	g.Spec = spec
+	g.Target = target
+	g.ModelPackage = "models"
+	g.APIPackage = "operations"
+	g.ServerPackage = "restapi"
+	g.ClientPackage = "client"
+	g.IncludeModel = true
+	g.IncludeValidator = true
+	g.ValidateSpec = false
+	switch variant {
+	case "house":
+		g.TemplateDir = tdir
+		g.AllowTemplateOverride = true
+	case "stratoscale":
+		g.Template = "stratoscale"
+	}
+	if err := g.EnsureDefaults(); err != nil {
+		die("EnsureDefaults: %v", err)
+	}
+	return g
+}
+
+// cmdOne: one generation in this (new) process; prints the hash of the tree
+func cmdOne(args []string) {
+	log.SetOutput(io.Discard)
+	sp, t, tdir, v := args[0], args[1], args[2], args[3]
+	_ = os.RemoveAll(filepath.Dir(t))
+	if err := gorun.NewModule(t); err != nil {
+		die("%v", err)
+	}
+	if err := generator.GenerateModels(nil, mixOpts(sp, t, tdir, v)); err != nil {
+		fmt.Println("ERROR", strings.ReplaceAll(err.Error(), " ", "_"))
+		return
+	}
+	h, _ := hashTree(t, skipFiles)
+	fmt.Println(h)
+	_ = os.RemoveAll(filepath.Dir(t))
+}
+
+// cmdSeq: several generations one after the other in this (new) process, each into the target its variant has everywhere
+func cmdSeq(args []string) {
+	log.SetOutput(io.Discard)
+	sp, _, tdir := args[0], args[1], args[2]
+	for _, v := range args[3:] {
+		t := filepath.Join(filepath.Dir(filepath.Dir(sp)), "mix-"+v, "target")
+		_ = os.RemoveAll(filepath.Dir(t))
+		if err := gorun.NewModule(t); err != nil {
+			die("%v", err)
+		}
+		if err := generator.GenerateModels(nil, mixOpts(sp, t, tdir, v)); err != nil {
+			fmt.Println("ERROR_" + strings.ReplaceAll(err.Error(), " ", "_"))
+			continue
+		}
+		h, _ := hashTree(t, skipFiles)
+		fmt.Println(h)
+		_ = os.RemoveAll(filepath.Dir(t))
+	}
+}
+
 func cmdConc(args []string) {
 	fs := flag.NewFlagSet("conc", flag.ExitOnError)
 	work := fs.String("work", "", "")
@@ -464,8 +537,12 @@ func cmdConc(args []string) {
 		run  func(s svc, keep bool) error
 	}{
 		{"GenerateModels", func(s svc, keep bool) error { return generator.GenerateModels(nil, newOpts(s.spec, s.target, keep)) }},
-		{"GenerateServer", func(s svc, keep bool) error { return generator.GenerateServer("wide", nil, nil, newOpts(s.spec, s.target, keep)) }},
-		{"GenerateClient", func(s svc, keep bool) error { return generator.GenerateClient("wide", nil, nil, newOpts(s.spec, s.target, keep)) }},
+		{"GenerateServer", func(s svc, keep bool) error {
+			return generator.GenerateServer("wide", nil, nil, newOpts(s.spec, s.target, keep))
+		}},
+		{"GenerateClient", func(s svc, keep bool) error {
+			return generator.GenerateClient("wide", nil, nil, newOpts(s.spec, s.target, keep))
+		}},
 	}
 	for mi, m := range modes {
 		for _, keep := range []bool{false, true} {
@@ -516,6 +593,89 @@ func cmdConc(args []string) {
 			}
 		}
 	}
+	// generations with different template options in one process (documented: custom template directory overriding a definition,
+	// contributed templates): each must equal the same generation run alone in a NEW process, whatever ran before or beside it
+	{
+		tdir := filepath.Join(*work, "house-templates")
+		_ = os.MkdirAll(tdir, 0o755)
+		_ = os.WriteFile(filepath.Join(tdir, "docstring.gotmpl"), []byte(houseDocstring), 0o644)
+		sp := filepath.Join(*work, "mixspec", "swagger.json")
+		_ = os.MkdirAll(filepath.Dir(sp), 0o755)
+		_ = os.WriteFile(sp, wideSpec(7), 0o644)
+		variants := []string{"default", "house", "stratoscale"}
+		target := func(v string) string { return filepath.Join(*work, "mix-"+v, "target") }
+		runV := func(v string) string {
+			t := target(v)
+			_ = os.RemoveAll(filepath.Dir(t))
+			if err := gorun.NewModule(t); err != nil {
+				die("%v", err)
+			}
+			if err := generator.GenerateModels(nil, mixOpts(sp, t, tdir, v)); err != nil {
+				return "ERROR " + err.Error()
+			}
+			h, _ := hashTree(t, skipFiles)
+			return h
+		}
+		// baselines: one fresh process per variant
+		alone := map[string]string{}
+		for _, v := range variants {
+			o, err := exec.Command(os.Args[0], "one", sp, target(v), tdir, v).Output()
+			if err != nil {
+				die("detcheck one %s: %v", v, err)
+			}
+			alone[v] = strings.TrimSpace(string(o))
+		}
+		report := func(kind, v, got string, order []string) {
+			viols = append(viols, violation{Key: "c07/depends-on-other-generations-in-the-process[" + kind + "]",
+				What:   fmt.Sprintf("GenerateModels with the %s templates, run %s in a process that also generates with other template options, differs from the same generation run alone in a new process", v, kind),
+				Input:  map[string]interface{}{"variant": v, "order": order, "house_template": houseDocstring},
+				Detail: map[string]interface{}{"alone": alone[v], "in_shared_process": got}})
+		}
+		// sequentially: every rotation of the variants needs its own process to start from a clean state, so the rotations run in
+		// children; this process runs the first one itself
+		orders := [][]string{{"default", "house", "stratoscale", "default"}, {"house", "default", "house"}, {"stratoscale", "house", "default"}}
+		for oi, order := range orders {
+			var got []string
+			if oi == 0 {
+				for _, v := range order {
+					got = append(got, runV(v))
+				}
+			} else {
+				o, err := exec.Command(os.Args[0], append([]string{"seq", sp, filepath.Join(*work, "mixseq"), tdir}, order...)...).Output()
+				if err != nil {
+					die("detcheck seq: %v", err)
+				}
+				got = strings.Fields(strings.TrimSpace(string(o)))
+			}
+			evals += len(order)
+			for i, v := range order {
+				if i < len(got) && got[i] != alone[v] {
+					report("after", v, got[i], order)
+					break
+				}
+			}
+		}
+		// concurrently
+		for r := 0; r < *rounds; r++ {
+			got := make([]string, len(variants))
+			var wg sync.WaitGroup
+			for i, v := range variants {
+				wg.Add(1)
+				go func(i int, v string) { defer wg.Done(); got[i] = runV(v) }(i, v)
+			}
+			wg.Wait()
+			evals += len(variants)
+			for i, v := range variants {
+				if got[i] != alone[v] {
+					report("beside", v, got[i], variants)
+					break
+				}
+			}
+		}
+		for _, v := range variants {
+			_ = os.RemoveAll(filepath.Dir(target(v)))
+		}
+	}
 	// the pre-processing step of keep-spec-order writes a re-ordered copy of its input: two inputs must never share that file
 	{
 		a, b := mk(0, "scratch"), mk(1, "scratch")
@@ -535,7 +695,7 @@ func cmdConc(args []string) {
 		viols = []violation{}
 	}
 	rep := map[string]interface{}{"evaluations": evals, "violations": viols, "k": *k, "rounds": *rounds,
-		"rule": "K concurrent library calls (GenerateModels / GenerateServer / GenerateClient, with and without PropertiesSpecOrder) on K distinct documents that share the base name swagger.json, into K distinct targets, under the race detector; every tree must equal the tree of the same generation run alone"}
+		"rule": "generations with the embedded, a custom-directory and the contributed stratoscale templates, one after the other (three orders) and side by side in one process, each compared with the same generation alone in a new process; K concurrent library calls (GenerateModels / GenerateServer / GenerateClient, with and without PropertiesSpecOrder) on K distinct documents that share the base name swagger.json, into K distinct targets, under the race detector; every tree must equal the tree of the same generation run alone"}
 	b, _ := json.MarshalIndent(rep, "", " ")
 	_ = os.WriteFile(*out, b, 0o644)
 	fmt.Printf("conc: %d concurrent generations, %d violations\n", evals, len(viols))
@@ -550,6 +710,10 @@ func main() {
 		cmdRuns(os.Args[2:])
 	case "conc":
 		cmdConc(os.Args[2:])
+	case "one":
+		cmdOne(os.Args[2:])
+	case "seq":
+		cmdSeq(os.Args[2:])
 	case "dumpspec":
 		os.Stdout.Write(wideSpec(1))
 	default:
